@@ -90,6 +90,15 @@ func checkLine(c Case) error {
 	if rec.Source != "pre-set source" {
 		return fmt.Errorf("UnmarshalText(%s) set Source to %q", vp.Q(line), rec.Source)
 	}
+	if verr := verify(line, rec, err, want); verr != nil {
+		return verr
+	}
+	record(c, want)
+	return nil
+}
+
+// verify compares the outcome of one UnmarshalText call with the reference.
+func verify(line string, rec *hostsfile.Record, err error, want Expect) error {
 	switch want.Class {
 	case "empty":
 		if !errors.Is(err, hostsfile.ErrEmptyLine) {
@@ -146,7 +155,6 @@ func checkLine(c Case) error {
 	if want.Class != "ok" && err == nil {
 		return fmt.Errorf("UnmarshalText(%s) accepted a line of class %s", vp.Q(line), want.Class)
 	}
-	record(c, want)
 	return nil
 }
 
@@ -277,12 +285,90 @@ var seqProp = vp.Register(vp.Prop[SeqCase]{
 
 func TestSeq(t *testing.T) { vp.Run(t, seqProp) }
 
+// ReuseCase parses a sequence of lines into ONE record (the scratch-record
+// idiom; the record may be pre-sized by the caller) and keeps a by-value copy
+// of the record after every call.
+type ReuseCase struct {
+	Lines  []vp.S `json:"lines"`
+	PreLen int    `json:"pre_len"`
+	PreCap int    `json:"pre_cap"`
+}
+
+// checkReuse: every call on a reused receiver gives the reference outcome of
+// its line, whatever the receiver held before, and a record value kept from
+// an earlier call (Record is a plain value type; the hostsfile.Set contract
+// lets implementations retain records) still reads as the record of its own
+// line after later calls.
+func checkReuse(c ReuseCase) error {
+	type kept struct {
+		line  string
+		rec   hostsfile.Record
+		names []string
+	}
+	var all []kept
+	rec := hostsfile.Record{}
+	if c.PreCap > 0 || c.PreLen > 0 {
+		rec.Names = make([]string, c.PreLen, max(c.PreCap, c.PreLen))
+	}
+	counts := map[int]bool{}
+	for i, l := range c.Lines {
+		line := string(l)
+		want := Reference(line)
+		err := rec.UnmarshalText([]byte(line))
+		if verr := verify(line, &rec, err, want); verr != nil {
+			return fmt.Errorf("call #%d on a reused record: %w", i, verr)
+		}
+		if want.Class == "ok" || want.Class == "badname" {
+			all = append(all, kept{line: line, rec: rec, names: slices.Clone(rec.Names)})
+			counts[len(rec.Names)] = true
+		}
+	}
+	for i, k := range all {
+		if !slices.Equal(k.rec.Names, k.names) {
+			return fmt.Errorf("the record value kept after parsing %s had Names %q; after %d later UnmarshalText calls on the same variable it reads %q", vp.Q(k.line), k.names, len(all)-1-i, k.rec.Names)
+		}
+	}
+	vp.Class("reuse")
+	if len(counts) >= 2 {
+		vp.Class("reuse:kept-records-with-different-name-counts")
+		vp.NonTrivialStr("c07.reuse", fmt.Sprint(c))
+		vp.Sample("reuse", c)
+	}
+	return nil
+}
+
+var reuseProp = vp.Register(vp.Prop[ReuseCase]{
+	Kind: "c07.reuse", Base: 15000,
+	Gen: func(t *rapid.T) ReuseCase {
+		c := ReuseCase{PreLen: rapid.IntRange(0, 3).Draw(t, "prelen"), PreCap: rapid.IntRange(0, 9).Draw(t, "precap")}
+		n := rapid.IntRange(2, 7).Draw(t, "n")
+		for i := 0; i < n; i++ {
+			switch rapid.IntRange(0, 3).Draw(t, "kind") {
+			case 0:
+				k := rapid.IntRange(1, 9).Draw(t, "names")
+				line := rapid.SampledFrom([]string{"10.0.0.1", "::1", "fe80::1%eth0"}).Draw(t, "addr")
+				for j := 0; j < k; j++ {
+					line += " " + rapid.SampledFrom([]string{"a", "B.example", "host-" + fmt.Sprint(i), "xn--e1afmkfd.test", "-bad"}).Draw(t, "name")
+				}
+				c.Lines = append(c.Lines, vp.S(line))
+			default:
+				c.Lines = append(c.Lines, vp.S(gen.HostsLine().Draw(t, "line")))
+			}
+		}
+		return c
+	},
+	Check: checkReuse,
+})
+
+func TestReuse(t *testing.T) { vp.Run(t, reuseProp) }
+
 // TestConcurrent (variant "conc", -race): the same checks from 8 goroutines.
 func TestConcurrent(t *testing.T) {
 	if vp.Variant() != "conc" {
 		t.Skip("runs in the conc variant (-race)")
 	}
 	vp.RunConcurrent(t, seqProp, 200, 16, 8)
+	vp.RunConcurrent(t, reuseProp, 150, 16, 8)
 	vp.RunConcurrent(t, lineProp, 150, 64, 8)
 }
 
